@@ -147,3 +147,50 @@ Definition promised (ls : list link) (d : dot) : dot :=
      d_edges := map (fun e => {| e_src := e_src e; e_sport := e_sport e; e_dst := e_dst e; e_dport := e_dport e;
                                  e_label := if value_src ls (e_src e) (e_sport e) then e_label e else [];
                                  e_color := 0%N |}) (d_edges d) |}.
+
+(* ---- a drawing is determined by the HUGR and by the options of THAT rendering (seeded round 5) ----
+   "Rendering ... is independent of palette and name-qualification options except for colours and the extension prefix
+   of operation names": what a rendering shows depends on the HUGR and on the options given to it - not on renderers
+   created, configured or used earlier, nor on how often something was drawn before.  Of several renderings of one
+   HUGR, any two made under equal options are the same drawing (colours and names included; as everywhere, up to the
+   order of edge statements and of sibling statements). *)
+Definition palette_eqb (a b : palette) : bool :=
+  N.eqb (p_background a) (p_background b) && N.eqb (p_node a) (p_node b) && N.eqb (p_edge a) (p_edge b) &&
+  N.eqb (p_dark a) (p_dark b) && N.eqb (p_const a) (p_const b) && N.eqb (p_discard a) (p_discard b) &&
+  N.eqb (p_node_border a) (p_node_border b) && N.eqb (p_port_border a) (p_port_border b).
+Definition config_eqb (a b : config) : bool :=
+  palette_eqb (c_pal a) (c_pal b) && Bool.eqb (c_qualify a) (c_qualify b).
+(* renderings in the order they were made: each agrees with every later one made under the same options *)
+Inductive Determined : list (config * dot) -> Prop :=
+| DetNil : Determined []
+| DetCons c d r :
+    (forall c' d', In (c', d') r -> c' = c -> dot_peqb d d' = true) -> Determined r -> Determined ((c, d) :: r).
+Fixpoint determined_b (rs : list (config * dot)) : bool :=
+  match rs with
+  | [] => true
+  | cd :: r => forallb (fun cd' => negb (config_eqb (fst cd') (fst cd)) || dot_peqb (snd cd) (snd cd')) r &&
+               determined_b r
+  end.
+
+(* ---- renderers do not interfere (seeded round 5) ----
+   Written without heap or addresses: every renderer has its OWN options - those it was created with (the default
+   options when it was created without a configuration), changed only by the steps that name THIS renderer; a drawing
+   made by renderer r is the drawing of the HUGR under r's own options at that time. *)
+Definition own_step (dflt : config) (own : list config) (o : hop) : list config :=
+  match o with
+  | HNew (Some c) => own ++ [c]
+  | HNew None => own ++ [dflt]
+  | HSetQual r b => upd r (set_qual b) own
+  | HSetPal r p => upd r (set_pal p) own
+  | HDraw _ => own
+  end.
+Definition own_draw (t : htree) (ls : list link) (own : list config) (o : hop) : list dot :=
+  match o with
+  | HDraw r => match nth_error own r with Some c => [render c t ls] | None => [] end
+  | _ => []
+  end.
+Fixpoint own_draws (dflt : config) (t : htree) (ls : list link) (own : list config) (h : list hop) : list dot :=
+  match h with
+  | [] => []
+  | o :: r => own_draw t ls own o ++ own_draws dflt t ls (own_step dflt own o) r
+  end.
